@@ -421,7 +421,7 @@ pub fn cases(tier: Tier) -> Vec<Case> {
     let nn = normals().len();
     for name in CLOSED.iter().chain(OPEN.iter()) {
         for pose in 0..5 {
-            if tier == Tier::Quick && pose >= 3 {
+            if tier == Tier::Quick && (pose + seed() as usize) % 5 >= 3 {
                 continue;
             }
             for normal in 0..nn {
